@@ -462,26 +462,9 @@ func checkEmitPrimitives(c *Ctx, r *Report, rule string) {
 		r.check(codeApp == 1 && posApp == 1 && other == 0, rule, "Prog.write", "appends its byte to code and its position to positions, once each",
 			fmt.Sprintf("Prog.write must append exactly one byte to code and one position to positions (code appends %d, position appends %d, other statements %d)", codeApp, posApp, other), c.pos(fd.Pos()))
 	}
-	// Prog.addConst: append then len-1
+	// Prog.addConst: one append of the argument; the result is the index it got (the length before the append)
 	if fd := get("Prog.addConst"); fd != nil {
-		ok := len(fd.Body.List) == 2
-		if ok {
-			as, isA := fd.Body.List[0].(*ast.AssignStmt)
-			rs, isR := fd.Body.List[1].(*ast.ReturnStmt)
-			ok = isA && isR && len(as.Rhs) == 1 && len(rs.Results) == 1
-			if ok {
-				call, isC := as.Rhs[0].(*ast.CallExpr)
-				ok = isC && c.calleeName(call) == "append" && c.fieldPath(as.Lhs[0]) == "<Prog>.constants" && c.fieldPath(call.Args[0]) == "<Prog>.constants" && len(call.Args) == 2 && c.isObj(call.Args[1], c.paramObj(fd, 0))
-				be, isB := rs.Results[0].(*ast.BinaryExpr)
-				if ok && isB && be.Op == token.SUB {
-					lc, isL := be.X.(*ast.CallExpr)
-					one, isOne := c.intConst(be.Y)
-					ok = isL && c.calleeName(lc) == "len" && c.fieldPath(lc.Args[0]) == "<Prog>.constants" && isOne && one == 1
-				} else {
-					ok = false
-				}
-			}
-		}
+		ok := c.addConstModel(fd)
 		r.check(ok, rule, "Prog.addConst", "appends the value and returns its index (len-1)", "addConst must append its argument to constants and return len(constants)-1", c.pos(fd.Pos()))
 	}
 }
@@ -754,4 +737,59 @@ func (c *Ctx) byteOf(e ast.Expr, x types.Object) string {
 		return "lo"
 	}
 	return "?"
+}
+
+
+type countPay struct{ appends, other int }
+
+func (p *countPay) Clone() Payload { q := *p; return &q }
+
+// addConstModel interprets addConst with len(constants) = L + (appends so far): every path appends the parameter
+// exactly once to Prog.constants, stores nothing else, and returns L — the index of the appended element —
+// however that is spelled (len-1 after the append, the length taken before it).
+func (c *Ctx) addConstModel(fd *ast.FuncDecl) bool {
+	param := c.paramObj(fd, 0)
+	var h Hooks
+	h.Call = func(in *Interp, st *State, call *ast.CallExpr, callee types.Object, args []Value) ([]valState, bool) {
+		p := st.P.(*countPay)
+		switch c.calleeName(call) {
+		case "len":
+			if len(call.Args) == 1 && c.fieldPath(call.Args[0]) == "<Prog>.constants" {
+				return one(st, linV(linSym("L").add(linConst(int64(p.appends))))), true
+			}
+		case "append":
+			if len(call.Args) == 2 && c.fieldPath(call.Args[0]) == "<Prog>.constants" && c.isObj(call.Args[1], param) && !call.Ellipsis.IsValid() {
+				return one(st, tagV("appended", nil)), true
+			}
+			return one(st, tagV("otherappend", nil)), true
+		}
+		return nil, false
+	}
+	h.Store = func(in *Interp, st *State, lhs ast.Expr, op token.Token, v Value) bool {
+		if _, isIdent := lhs.(*ast.Ident); isIdent {
+			return false
+		}
+		p := st.P.(*countPay)
+		if c.fieldPath(lhs) == "<Prog>.constants" && op == token.ASSIGN && v.K == vTag && v.Tag == "appended" {
+			p.appends++
+		} else {
+			p.other++
+		}
+		return true
+	}
+	in := newInterp(c, h)
+	st := &State{Env: map[types.Object]Value{}, P: &countPay{}}
+	recv := unknownV()
+	res := in.inlineBody(st, fd.Type, fd.Body, fd.Recv, []Value{unknownV()}, recvOpt{&recv})
+	if len(res) == 0 || len(in.Undecided) > 0 {
+		return false
+	}
+	for _, vs := range res {
+		p := vs.st.P.(*countPay)
+		l, isLin := vs.v.asLin()
+		if p.appends != 1 || p.other != 0 || !isLin || !l.equal(linSym("L")) {
+			return false
+		}
+	}
+	return true
 }
